@@ -13,13 +13,14 @@ func c11Svc(extra map[string]any) map[string]any {
 }
 
 func VerifC11Defaults() {
-	scen := vrtChoice("scenario", 12)
+	scen := vrtChoice("scenario", 14)
 	v := "x" + vrtString("v", vrtParam("VL", 1), "ab")
 	other := map[string]any{"image": "i"}
+	data := map[string]any{"image": "i"}
 	var implicit, explicit, different map[string]any
 	var diffCheck func(m map[string]any) bool
 	mk := func(svc map[string]any, top map[string]any) map[string]any {
-		d := map[string]any{"services": map[string]any{"s": svc, "o": other, "data": map[string]any{"image": "i"}}}
+		d := map[string]any{"services": map[string]any{"s": svc, "o": other, "data": data}}
 		for k, e := range top {
 			d[k] = e
 		}
@@ -174,6 +175,41 @@ func VerifC11Defaults() {
 			d, _ := l[0].(map[string]any)
 			return d["count"] == any(2)
 		}
+	case 12: // an empty networks declaration still means the default network
+		empty := []any{[]any{}, map[string]any{}}[vrtChoice("emptyKind", 2)]
+		implicit = mk(c11Svc(map[string]any{"networks": empty}), nil)
+		explicit = mk(c11Svc(map[string]any{"networks": map[string]any{"default": nil}}), map[string]any{"networks": map[string]any{"default": map[string]any{"name": "p_default"}}})
+		// no other service uses the default network
+		other["network_mode"] = "none"
+		data["network_mode"] = "none"
+	case 13: // external: false is the default
+		kind := []string{"networks", "volumes", "secrets", "configs"}[vrtChoice("kind", 4)]
+		body := func(ext bool) map[string]any {
+			o := map[string]any{}
+			if kind == "secrets" || kind == "configs" {
+				o["file"] = "/f"
+			}
+			if ext {
+				o["external"] = false
+			}
+			return o
+		}
+		implicit = mk(c11Svc(nil), map[string]any{kind: map[string]any{"r": body(false)}})
+		explicit = mk(c11Svc(nil), map[string]any{kind: map[string]any{"r": body(true)}})
+		diffCheck = nil
+		// compare names only: the explicit `external: false` may or may not be kept in the model
+		load0 := func(doc map[string]any) (map[string]any, error) { return tcLoad(nil, nil, doc) }
+		mi, ei := load0(implicit)
+		me, ee := load0(explicit)
+		vrtAssert("both-load", ei == nil && ee == nil)
+		if ei == nil && ee == nil {
+			ri, _ := mi[kind].(map[string]any)["r"].(map[string]any)
+			re, _ := me[kind].(map[string]any)["r"].(map[string]any)
+			vrtAssert("external-false-keeps-project-prefixed-name", ri["name"] == any("p_r") && re["name"] == any("p_r"))
+			ext, _ := re["external"].(bool)
+			vrtAssert("external-false-is-not-external", !ext)
+		}
+		return
 	case 11: // short depends_on list
 		implicit = mk(c11Svc(map[string]any{"depends_on": []any{"o", "data"}}), nil)
 		explicit = mk(c11Svc(map[string]any{"depends_on": map[string]any{"o": map[string]any{"condition": "service_started", "required": true}, "data": map[string]any{"condition": "service_started", "required": true}}}), nil)
